@@ -1,0 +1,11 @@
+//go:build verif
+
+package runtime
+
+// VerifC16SetDevelopmentMode switches the package-level developmentMode flag, which is otherwise fixed
+// from TEMPL_DEV_MODE when the package is initialised.
+func VerifC16SetDevelopmentMode(v bool) (old bool) {
+	old = developmentMode
+	developmentMode = v
+	return old
+}
